@@ -13,10 +13,10 @@
            which the best attempt got stuck.
 
    The hooks log an atomic operation AFTER performing it, so two threads'
-   operations on the flag can appear in the log in the opposite order.  The
-   acceptor therefore searches for an order of the read-modify-write chain that
-   respects every thread's own order and the recorded prior values (events may
-   be taken out of log order within a small window). *)
+   operations on the flag can appear in the log in the opposite order (a waker
+   preempted between its fetch_or and the log entry can be many entries late).
+   The acceptor therefore reconstructs the order of the read-modify-write chain
+   from the recorded prior values: see "Order reconstruction" below. *)
 From Compio.Model Require Import Base Wake.
 From Compio.Gen Require Import Consts.
 Local Open Scope nat_scope.
@@ -135,80 +135,260 @@ Definition dstep (is_uring : bool) (s : dst) (kind th arg : N) : option dst :=
   | _ => None
   end.
 
-Definition ev := (N * N * N)%type.
-Definition ev_kind (x : ev) : N := fst (fst x).
-Definition ev_th (x : ev) : N := snd (fst x).
-Definition ev_arg (x : ev) : N := snd x.
+(* ---------------------------------------------------------------------- *)
+(* Order reconstruction.  The hooks log an operation after performing it, so a
+   waker's fetch_or can appear in the log long after driver operations that
+   really followed it.  The driver thread's own operations are in order; each
+   of its stores to the flag (reset -> IDLE, set -> AWAKE) starts a PHASE with
+   that base value.  A wake with prior = base is the FIRST wake of its phase
+   (it sets NOTIFIED), a wake with prior = base + NOTIFIED a LATER one.  The
+   recorded priors determine the order up to commuting operations iff every
+   wake can be assigned to a phase such that
+     - a phase has at most one first wake, and later wakes only with a first one
+       (possibly still to come in the log: a debt, to be paid by the end),
+     - a phase closed by reset(prior) has a first wake iff prior has NOTIFIED,
+     - along each thread the phases do not decrease, and a thread's first wake of
+       a phase is its first event in that phase,
+     - a wake is assigned to a phase that had started when it was logged, or -
+       the driver's own log entry being the late one - to the next phases (the
+       event is deferred and retried whenever the driver starts a phase).
+   Such an assignment yields an interleaving (per phase: the first wake, the
+   later wakes, the closing store) that reproduces every recorded prior.      *)
 
-(* the (index, event) pairs of [pend] that may be taken next: within the
-   first [w] entries, the first pending event of its thread *)
-Fixpoint cands (w : nat) (seen_th : list N) (pend : list (nat * ev)) (before : list (nat * ev))
-  : list ((nat * ev) * list (nat * ev)) :=
-  match w, pend with
-  | S w', x :: rest =>
-    let th := ev_th (snd x) in
-    let others := cands w' (th :: seen_th) rest (before ++ [x]) in
-    if mem th seen_th then others else (x, before ++ rest) :: others
-  | _, _ => []
+Inductive closing := COpen | CBySet | CByReset (notified : bool).
+
+Record phase := mk_ph {
+  ph_id : nat;
+  ph_base : N;            (* AWAKE_IDLE or AWAKE_AWAKE *)
+  ph_first : bool;        (* the first wake of the phase has been seen *)
+  ph_debt : bool;         (* a first wake is implied (later wake / closing prior) but not seen yet *)
+  ph_close : closing
+}.
+
+Definition ph_set_first (p : phase) := mk_ph (ph_id p) (ph_base p) true false (ph_close p).
+Definition ph_set_debt (p : phase) := mk_ph (ph_id p) (ph_base p) (ph_first p) (negb (ph_first p)) (ph_close p).
+Definition ph_closed (cl : closing) (p : phase) := mk_ph (ph_id p) (ph_base p) (ph_first p) (ph_debt p) cl.
+
+(* may this phase (still) receive a first wake / a later wake? *)
+Definition takes_first (p : phase) : bool :=
+  negb (ph_first p) &&
+  match ph_close p with COpen | CBySet => true | CByReset n => n end.
+Definition takes_later (p : phase) : bool :=
+  match ph_close p with CByReset false => false | _ => true end.
+
+Record ast := mk_ast {
+  a_drv : dst;                    (* the driver thread's automaton; its dflag is not used *)
+  a_phases : list phase;          (* most recent first; the head is open *)
+  a_last : list (N * nat);        (* per thread: the phase of its last wake *)
+  a_defer : list (nat * (N * N * N)) (* (log index, event): waker events waiting for a phase that
+                                        the driver has started but not logged yet, in log order *)
+}.
+
+Fixpoint last_of (th : N) (l : list (N * nat)) : option nat :=
+  match l with
+  | [] => None
+  | (t, k) :: r => if N.eqb t th then Some k else last_of th r
+  end.
+Fixpoint set_last (th : N) (k : nat) (l : list (N * nat)) : list (N * nat) :=
+  match l with
+  | [] => [(th, k)]
+  | (t, k0) :: r => if N.eqb t th then (t, k) :: r else (t, k0) :: set_last th k r
   end.
 
-Definition WINDOW : nat := 6.
+Definition base_of (prior : N) : N := N.land prior AWAKE_AWAKE.
 
-(* depth-first search; [budget] bounds the total number of attempts.
-   Returns (accepted, remaining budget, furthest log index at which an attempt got stuck, wakes) *)
-Fixpoint search (depth : nat) (is_uring : bool) (s : dst) (pend : list (nat * ev)) (budget : N)
-  : bool * N * nat * nat :=
-  match pend with
-  | [] => (isnil (owing s), budget, 0, nwakes s)
-  | first :: _ =>
-    match depth with
-    | O => (false, budget, fst first, 0)
-    | S dep =>
-      (fix try (cs : list ((nat * ev) * list (nat * ev))) (budget : N) (far : nat)
-         : bool * N * nat * nat :=
-         match cs with
-         | [] => (false, budget, far, 0)
-         | (x, rest) :: more =>
-           if N.eqb budget 0 then (false, 0%N, far, 0) else
-           match dstep is_uring s (ev_kind (snd x)) (ev_th (snd x)) (ev_arg (snd x)) with
-           | None => try more (budget - 1)%N far
-           | Some s' =>
-             match search dep is_uring s' rest (budget - 1)%N with
-             | (true, b, f, nwk) => (true, b, f, nwk)
-             | (false, b, f, _) => try more b (Nat.max far f)
-             end
-           end
-         end) (cands WINDOW [] pend []) budget (fst first)
-    end
+Definition PHASE_WINDOW : nat := 64.
+
+(* replace the first phase of [l] (within [w]) satisfying [ok] by [f] of it *)
+Fixpoint place (w : nat) (ok : phase -> bool) (f : phase -> phase) (l : list phase)
+  : option (nat * list phase) :=
+  match w, l with
+  | S w', p :: r =>
+    if ok p then Some (ph_id p, f p :: r)
+    else match place w' ok f r with
+         | Some (k, r') => Some (k, p :: r')
+         | None => None
+         end
+  | _, _ => None
   end.
 
-Fixpoint dec_evs (n : nat) (i : nat) (l : list N) : option (list (nat * ev)) :=
-  match n with
-  | O => match l with [] => Some [] | _ => None end
-  | S n' =>
-    match l with
-    | k :: th :: a :: r =>
-      match dec_evs n' (S i) r with
-      | Some es => Some ((i, (k, th, a)) :: es)
-      | None => None
+Definition current_value (a : ast) : N :=
+  match a_phases a with
+  | p :: _ => if ph_first p || ph_debt p then fl_wake (ph_base p) else ph_base p
+  | [] => AWAKE_IDLE
+  end.
+
+(* a wake (fetch_or) with the recorded prior, by thread th *)
+Definition place_wake (a : ast) (th prior : N) : option ast :=
+  let b := base_of prior in
+  let later := has_notified prior in
+  let lo := last_of th (a_last a) in
+  let after_last (strict : bool) (p : phase) : bool :=
+    match lo with
+    | None => true
+    | Some k => if strict then Nat.ltb k (ph_id p) else Nat.leb k (ph_id p)
+    end in
+  let own := N.eqb th 0 in   (* the driver thread's own wake belongs to the open phase *)
+  let w := if own then 1 else PHASE_WINDOW in
+  let res :=
+    if later then
+      match place w (fun p => N.eqb (ph_base p) b && after_last false p && (ph_first p || ph_debt p))
+                  (fun p => p) (a_phases a) with
+      | Some r => Some r
+      | None =>
+        (* its first wake is not in the log yet: a debt *)
+        place w (fun p => N.eqb (ph_base p) b && after_last false p && takes_later p && takes_first p)
+              ph_set_debt (a_phases a)
       end
-    | _ => None
+    else
+      match place w (fun p => N.eqb (ph_base p) b && after_last true p && ph_debt p && takes_first p)
+                  ph_set_first (a_phases a) with
+      | Some r => Some r
+      | None =>
+        place w (fun p => N.eqb (ph_base p) b && after_last true p && takes_first p)
+              ph_set_first (a_phases a)
+      end in
+  match res with
+  | None => None
+  | Some (k, phs) =>
+    let dv := a_drv a in
+    if mem th (owing dv) then None else
+    let dv' := mk_dst (dflag dv) (dneed dv) (dph dv) (dnw dv)
+                      (if fl_idle prior then th :: owing dv else owing dv) (S (nwakes dv)) in
+    Some (mk_ast dv' phs (set_last th k (a_last a)) (a_defer a))
+  end.
+
+Definition new_phase (a : ast) (cl : closing) (base : N) : list phase :=
+  match a_phases a with
+  | p :: r => mk_ph (S (ph_id p)) base false false COpen :: ph_closed cl p :: r
+  | [] => [mk_ph 0 base false false COpen]
+  end.
+
+(* reset with a prior that lacks NOTIFIED although the open phase holds a first
+   wake: that wake (and the later ones) really belong to the preceding phase of
+   the same base, whose NOTIFIED the intervening store discarded *)
+Definition relocate (a : ast) : option ast :=
+  match a_phases a with
+  | p :: q :: r =>
+    if (ph_first p || ph_debt p) && N.eqb (ph_base p) (ph_base q) && takes_first q && takes_later q
+    then
+      let q' := mk_ph (ph_id q) (ph_base q) (ph_first p) (ph_debt p) (ph_close q) in
+      let p' := mk_ph (ph_id p) (ph_base p) false false (ph_close p) in
+      Some (mk_ast (a_drv a) (p' :: q' :: r)
+                   (map (fun tk => if Nat.eqb (snd tk) (ph_id p) then (fst tk, ph_id q) else tk) (a_last a))
+                   (a_defer a))
+    else None
+  | _ => None
+  end.
+
+Definition astep_now (is_uring : bool) (a : ast) (kind th arg : N) : option ast :=
+  match kind with
+  | 22%N => place_wake a th arg
+  | 21%N =>
+    (* reset: the prior must agree with the open phase; a NOTIFIED prior without
+       a first wake seen so far is a debt *)
+    let n := has_notified arg in
+    let a1 :=
+      match a_phases a with
+      | p :: _ => if negb n && (ph_first p || ph_debt p)
+                  then match relocate a with Some a' => a' | None => a end else a
+      | [] => a
+      end in
+    match a_phases a1 with
+    | [] => None
+    | p :: _ =>
+      if N.eqb (base_of arg) (ph_base p) && (n || negb (ph_first p || ph_debt p)) then
+        (* run the driver automaton on a flag value that matches *)
+        let dv := a_drv a1 in
+        match dstep is_uring (mk_dst arg (dneed dv) (dph dv) (dnw dv) (owing dv) (nwakes dv)) kind th arg with
+        | None => None
+        | Some dv' =>
+          let p' := if n then ph_set_debt p else p in
+          let a' := mk_ast dv' (p' :: tl (a_phases a1)) (a_last a1) (a_defer a1) in
+          Some (mk_ast dv' (new_phase a' (CByReset n) AWAKE_IDLE) (a_last a1) (a_defer a1))
+        end
+      else None
+    end
+  | 20%N =>
+    match dstep is_uring (a_drv a) kind th arg with
+    | None => None
+    | Some dv' => Some (mk_ast dv' (new_phase a CBySet AWAKE_AWAKE) (a_last a) (a_defer a))
+    end
+  | _ =>
+    match dstep is_uring (a_drv a) kind th arg with
+    | None => None
+    | Some dv' => Some (mk_ast dv' (a_phases a) (a_last a) (a_defer a))
     end
   end.
+
+Definition has_deferred (th : N) (l : list (nat * (N * N * N))) : bool :=
+  existsb (fun x => N.eqb (snd (fst (snd x))) th) l.
+
+(* retry the deferred events in order; an event stays deferred when it still
+   cannot be placed or when an earlier event of its thread stays deferred *)
+Fixpoint retry (is_uring : bool) (a : ast) (l : list (nat * (N * N * N)))
+               (kept : list (nat * (N * N * N))) : ast :=
+  match l with
+  | [] => mk_ast (a_drv a) (a_phases a) (a_last a) kept
+  | x :: r =>
+    let '(k, th, arg) := snd x in
+    if has_deferred th kept then retry is_uring a r (kept ++ [x]) else
+    match astep_now is_uring a k th arg with
+    | Some a' => retry is_uring a' r kept
+    | None => retry is_uring a r (kept ++ [x])
+    end
+  end.
+
+Definition DEFER_MAX : nat := 64.
+
+Definition astep (is_uring : bool) (i : nat) (a : ast) (kind th arg : N) : option ast :=
+  let waker_ev := match kind with 22%N | 23%N => negb (N.eqb th 0) | _ => false end in
+  if waker_ev && has_deferred th (a_defer a) then
+    if Nat.ltb (length (a_defer a)) DEFER_MAX
+    then Some (mk_ast (a_drv a) (a_phases a) (a_last a) (a_defer a ++ [(i, (kind, th, arg))]))
+    else None
+  else
+  match astep_now is_uring a kind th arg with
+  | Some a' =>
+    match kind with
+    | 20%N | 21%N => Some (retry is_uring a' (a_defer a') [])   (* a new phase has started *)
+    | _ => Some a'
+    end
+  | None =>
+    if waker_ev && N.eqb kind 22 && Nat.ltb (length (a_defer a)) DEFER_MAX
+    then Some (mk_ast (a_drv a) (a_phases a) (a_last a) (a_defer a ++ [(i, (kind, th, arg))]))
+    else None
+  end.
+
+Definition ainit : ast := mk_ast dinit [mk_ph 0 AWAKE_IDLE false false COpen] [] [].
+
+Fixpoint areplay (is_uring : bool) (a : ast) (es : list N) (i : nat) : ast + nat :=
+  match es with
+  | k :: th :: arg :: r =>
+    match astep is_uring i a k th arg with
+    | Some a' => areplay is_uring a' r (S i)
+    | None => inr i
+    end
+  | _ => inl a
+  end.
+
+Definition no_debt (a : ast) : bool := forallb (fun p => negb (ph_debt p)) (a_phases a).
 
 Definition run_c03 (l : list N) : list N :=
   match l with
   | drv :: n :: r =>
     if negb (N.leb drv 1) then BAD_CASE else
-    match dec_evs (nn n) 0 r with
-    | None => BAD_CASE
-    | Some es =>
-      let is_uring := N.eqb drv 0 in
-      let budget := (20 * n + 1000)%N in
-      match search (S (length es)) is_uring dinit es budget with
-      | (true, _, _, nwk) => [1%N; n; NN nwk]
-      | (false, _, far, _) => [0%N; NN far; nth (3 * far) r 0%N]
+    if negb (Nat.eqb (length r) (3 * nn n)) then BAD_CASE else
+    match areplay (N.eqb drv 0) ainit r 0 with
+    | inl a =>
+      match a_defer a with
+      | x :: _ => [0%N; NN (fst x); fst (fst (snd x))]   (* a wake that fits no phase *)
+      | [] =>
+        if isnil (owing (a_drv a)) && no_debt a
+        then [1%N; n; NN (nwakes (a_drv a))]
+        else [0%N; n; 0%N]      (* a notifier write or a first wake never showed up *)
       end
+    | inr i => [0%N; NN i; nth (3 * i) r 0%N]
     end
   | _ => BAD_CASE
   end.
